@@ -702,6 +702,10 @@ def run(ctx, report):
             for f_ in r_.findings:
                 R11.violation(f_.key, f_.key, f_.what, f_.where, f_.witness, count=False)
 
+    R12 = report.rule('C10.D12', 'the decoder never indexes an operand list that may still be empty: a constant-index read of a list the function starts empty and fills in some branches '
+                      'only is guarded by a test of that list (or by an IndexError handler), or follows an unconditional fill', floor=1)
+    empty_index_rule(ctx, R12, ctx.mod('ia32_arch'), ['x86_mn._dis', 'x86_mn.special_opcodes', 'x86_mnemo_metaclass.dis'])
+
     R4 = report.rule('C10.D4', 'truncated input is reported as absent; reads are bounds-checked; loops make progress', floor=12)
     if not tries or 'IOError' not in caught:
         R4.violation('_dis:try', '_dis:no-IOError-handler', 'the decoder has no try whose IOError handler returns None', where(arch, dis))
@@ -775,6 +779,100 @@ def run(ctx, report):
     # -------------------------------------------------------------- D5 AT&T mnemonic reader is total
     R5 = report.rule('C10.D5', 'mnemo_from_att, evaluated on every mnemonic-like name x operand shape, returns or raises the documented ValueError', floor=3000)
     from_att_total(ctx, R5, arch)
+
+
+def _maybe_empty_index_sites(fn):
+    """(list name, subscript node, guarded?) for every constant-index read `L[k]` of a local list that fn initialises empty."""
+    empties = set()
+    for n in walk_no_nested(fn):
+        if isinstance(n, ast.Assign) and len(n.targets) == 1 and isinstance(n.targets[0], ast.Name):
+            v = n.value
+            if (isinstance(v, ast.List) and not v.elts) or (isinstance(v, ast.Call) and u(v.func) == 'list' and not v.args):
+                empties.add(n.targets[0].id)
+    out = []
+    if not empties:
+        return out
+
+    def mentions(test, name):
+        return any(isinstance(x, ast.Name) and x.id == name for x in ast.walk(test))
+
+    def fills(st, name):
+        """an unconditional statement that leaves the list non-empty"""
+        if isinstance(st, ast.Expr) and isinstance(st.value, ast.Call) and isinstance(st.value.func, ast.Attribute) and st.value.func.attr in ('append', 'insert') \
+                and isinstance(st.value.func.value, ast.Name) and st.value.func.value.id == name:
+            return True
+        if isinstance(st, ast.AugAssign) and isinstance(st.target, ast.Name) and st.target.id == name and isinstance(st.value, ast.List) and st.value.elts:
+            return True
+        if isinstance(st, ast.Assign) and len(st.targets) == 1 and isinstance(st.targets[0], ast.Name) and st.targets[0].id == name:
+            v = st.value
+            if isinstance(v, ast.List) and v.elts:
+                return True
+            if isinstance(v, ast.BinOp) and isinstance(v.op, ast.Add) and any(isinstance(x, ast.List) and x.elts for x in (v.left, v.right)):
+                return True
+            if not ((isinstance(v, ast.List) and not v.elts) or (isinstance(v, ast.Call) and u(v.func) == 'list' and not v.args)):
+                return True         # rebound to something else: no longer the list that started empty
+        return False
+    for sub in walk_no_nested(fn):
+        if not (isinstance(sub, ast.Subscript) and isinstance(sub.ctx, ast.Load) and isinstance(sub.value, ast.Name) and sub.value.id in empties):
+            continue
+        sl = sub.slice
+        if not (isinstance(sl, ast.Constant) and isinstance(sl.value, int)) and not (isinstance(sl, ast.UnaryOp) and isinstance(sl.operand, ast.Constant)):
+            continue
+        name = sub.value.id
+        guarded = False
+        node = sub
+        while node is not fn and node is not None:
+            par = parent(node)
+            if par is None:
+                break
+            if isinstance(par, (ast.If, ast.While, ast.IfExp)) and node is not par.test and mentions(par.test, name):
+                guarded = True
+            if isinstance(par, ast.BoolOp) and node in par.values and any(mentions(v, name) for v in par.values[:par.values.index(node)]):
+                guarded = True
+            if isinstance(par, (ast.If, ast.While)) and node is par.test:
+                pass
+            if isinstance(par, ast.Try) and node in par.body and any(h.type is None or u(h.type) in ('IndexError', 'Exception', 'LookupError') or 'IndexError' in u(h.type) for h in par.handlers):
+                guarded = True
+            if isinstance(par, ast.comprehension) or isinstance(par, (ast.For,)) and isinstance(par.iter, ast.Name) and par.iter.id == name:
+                guarded = True
+            for fld in ('body', 'orelse', 'finalbody'):
+                lst = getattr(par, fld, None)
+                if isinstance(lst, list) and node in lst:
+                    for prev in lst[:lst.index(node)]:
+                        if fills(prev, name):
+                            guarded = True
+                        if isinstance(prev, ast.If) and mentions(prev.test, name) and prev.body and isinstance(prev.body[-1], (ast.Return, ast.Continue, ast.Break, ast.Raise)):
+                            guarded = True
+            node = par
+        out.append((name, sub, guarded))
+    return out
+
+
+def empty_index_rule(ctx, R, mod, quals):
+    example = ast.parse("def f(b, p):\n    args = []\n    out = []\n    if b:\n        args.append(1)\n    if p and args[0] == 1:\n        return None\n    if args and args[0] == 2:\n        return 1\n"
+                        "    out.append(3)\n    return out[0]\n")
+    for _n in ast.walk(example):
+        for _c in ast.iter_child_nodes(_n):
+            _c._parent = _n
+    got = sorted((nm, g) for nm, _, g in _maybe_empty_index_sites(example.body[0]))
+    if got != [('args', False), ('args', True), ('out', True)]:
+        raise AnalysisError('empty-index rule: the built-in example is no longer recognised: %r' % (got,))
+    n_fn = 0
+    for q in quals:
+        cname, mname = q.split('.')
+        fn = mod.methods(cname).get(mname) if cname in mod.classes else None
+        if fn is None:
+            raise AnalysisError('%s not found' % q)
+        n_fn += 1
+        sites = _maybe_empty_index_sites(fn)
+        for name, sub, guarded in sites:
+            inst = '%s:%s' % (q, norm(sub)[:60])
+            if guarded:
+                R.ok(inst, sample='%s reads %s under a test of %s / after a fill' % (q, u(sub), name))
+            else:
+                R.violation(inst, 'empty-index:%s:%s' % (mname, name), '%s reads %s, but %s starts empty and is filled in some branches only, and nothing on the way tests it: the forms that '
+                            'fill nothing (no ModRM operand) raise IndexError instead of being decoded or rejected' % (q, u(sub), name), where(mod, sub), witness='f0 04 11 (lock add al, 0x11)')
+        R.ok('%s: scanned' % q, sample='%s: %d constant-index reads of lists that start empty' % (q, len(sites)))
 
 
 def dis_rewind_rule(ctx, R4, arch, dis):
